@@ -43,7 +43,7 @@ def cases(tier, seed):
     defs.append(space.bind_def(5, 4, 3, order=1, sensors_shape=(3, 1), tag="-wide"))  # names x10 < x2, u10 < u2, K < c
     if tier == "quick":
         special = [d for d in ops if any(t in d["name"] for t in ("atan-tan", "tan-atan", "log-exp", "sqrt-square", "div-by-", "inv-square",
-                                                                   "reciprocal")) and d not in ops[::3]]
+                                                                   "reciprocal", "log-square", "log-prod", "log-neg")) and d not in ops[::3]]
         defs = defs + ops[::3] + special + cse[::3]
     else:
         defs = defs + ops + cse
